@@ -751,7 +751,7 @@ static int encode_section( const int16_t *inbuf,
     int *zrun_values = 0;
     do {
         CHECKED_MALLOC( weight_values, size*sizeof(int) );
-        CHECKED_MALLOC( zrun_values, size*sizeof(int) );
+        CHECKED_MALLOC( zrun_values, (size+1)*sizeof(int) );  // one zero-run before each weight plus a trailing one
 
         // Get weights (or weight indicies) AND zero-runs from the input weight stream.
         int i=0, n_weights = 0, zcnt;
